@@ -143,6 +143,17 @@ class Prop(BaseProp):
             ro = ctx.call(fn, sts, MRTS=mr)
             d = common.result_equal(ps, r0, rn, 0) or common.result_equal(ps, ro, rn, 0)
             ctx.expect(d is None, "max_tau-none!=zero:" + name, "%s: max_tau=None / 0 / omitted differ: %s" % (name, d))
+        # the same through the bivariate forms, with numeric and automatic MRTS
+        for mrts in (mr, "auto"):
+            for name, extra in (("spike_directionality", {"normalize": False}), ("spike_sync", {}), ("spike_train_order_profile", {}),
+                                ("spike_sync_profile", {}), ("spike_directionality_values", {})):
+                fn = getattr(ps, name)
+                r0 = ctx.call(fn, sts[0], sts[1], max_tau=0, MRTS=mrts, **extra)
+                rz = ctx.call(fn, sts[0], sts[1], max_tau=0.0, MRTS=mrts, **extra)
+                rn = ctx.call(fn, sts[0], sts[1], max_tau=None, MRTS=mrts, **extra)
+                ro = ctx.call(fn, sts[0], sts[1], MRTS=mrts, **extra)
+                d = common.result_equal(ps, r0, rn, 0) or common.result_equal(ps, ro, rn, 0) or common.result_equal(ps, rz, rn, 0)
+                ctx.expect(d is None, "max_tau-none!=zero:bi:" + name, "%s(a,b,MRTS=%r): max_tau=None / 0 / 0.0 / omitted differ: %s" % (name, mrts, d))
         r0 = ctx.call(ps.filter_by_spike_sync, sts, 0.5, max_tau=0, MRTS=mr)
         rn = ctx.call(ps.filter_by_spike_sync, sts, 0.5, max_tau=None, MRTS=mr)
         d = common.result_equal(ps, r0, rn, 0)
